@@ -34,8 +34,8 @@ def strings(rng, n=24):
 
 TYPES = ["Int", "Float", "String", "Array", "List", "Table", "Tree", "Tuple", "Ref", "Box", "Type", "File", "Range", "Slice", "Zip", "Map",
          "Filter", "Thread", "Mutex", "Function", "TypeError", "ValueError", "KeyError", "IOError", "Iter", "Get",
-         "Point", "Point3D", "PointCloud", "Poin", "P"]          # (names that are prefixes of each other; the last five are made at run time)
-NESTED_TYPES = ["Type", "TypeError", "Point", "Point3D", "PointCloud", "Poin", "P", "Iter", "Int"]
+         "Point", "Point3D", "PointCloud", "Poin", "P", "\u00dcnit", "\u00e9t\u00e9", "Unit"]          # (names that are prefixes of each other; the last five are made at run time)
+NESTED_TYPES = ["Type", "TypeError", "Point", "Point3D", "PointCloud", "Poin", "P", "Iter", "Int", "\u00dcnit", "Unit"]
 
 def blobs(rng, n=16, size=16):
     z = size - 1
